@@ -59,6 +59,363 @@ Proof.
   assert (length (firstn k (skipn n l)) = k) as Lk.
   { rewrite firstn_length. unfold zlen in Hlen. subst k. lia. }
   split.
-  - intros E. apply (f_equal (@length Z)) in E. rewrite firstn_plus, app_length, Ln in E. cbn in E. lia.
-  - intros rest'. rewrite firstn_plus, <- app_assoc.
-    rewrite Vl. rewrite Hneg'. Abort.
+  - intros E. apply (f_equal (@length Z)) in E. cbn [r_bytes] in E.
+    rewrite firstn_plus, app_length, Ln in E. cbn in E. lia.
+  - intros rest'. cbn [r_bytes]. rewrite firstn_plus, <- app_assoc.
+    set (A := firstn n l) in *. set (B := firstn k (skipn n l)) in *.
+    unfold scan_record. rewrite Vl.
+    assert ((len <? 0) = false) as -> by (apply Z.ltb_ge; lia).
+    rewrite (skipn_app_exact A (B ++ rest') n Ln).
+    assert ((zlen (B ++ rest') <? len) = false) as ->.
+    { apply Z.ltb_ge. unfold zlen. rewrite app_length, Lk. subst k. lia. }
+    fold k. rewrite (firstn_app_exact B rest' k Lk). rewrite D, V1, V2.
+    f_equal. f_equal.
+    + f_equal. rewrite firstn_plus. rewrite (firstn_app_exact A _ n Ln), (skipn_app_exact A _ n Ln).
+      rewrite <- D. now rewrite (firstn_app_exact B rest' k Lk).
+    + rewrite skipn_plus, (skipn_app_exact A _ n Ln). rewrite <- D. apply (skipn_app_exact B rest' k Lk).
+Qed.
+
+(* ---------------------------------------------------------------- record lists *)
+Lemma parse_good : forall f cnt data rs, parse_records f cnt data = Some rs ->
+  Forall good rs /\ zlen rs = Z.max 0 cnt.
+Proof.
+  induction f as [|f IH]; intros cnt data rs H; cbn in H; [discriminate|].
+  destruct (cnt <=? 0) eqn:Hc.
+  - inversion H; subst. split; [constructor|]. apply Z.leb_le in Hc. cbn. lia.
+  - apply Z.leb_gt in Hc. destruct (scan_record data) as [[r rest]|] eqn:S; [|discriminate].
+    destruct (parse_records f (cnt - 1) rest) as [rs'|] eqn:P; [|discriminate].
+    inversion H; subst. apply IH in P as [P1 P2]. apply scan_record_good in S as [_ G].
+    split; [constructor; assumption|]. rewrite zlen_cons. lia.
+Qed.
+
+Definition keep_p (first T : Z) (r : rec) : bool := rec_ts first r <=? T.
+
+Lemma scan_keep_parse : forall f cnt data first T rs, parse_records f cnt data = Some rs ->
+  scan_keep f cnt data first T = Some (take_while (keep_p first T) rs).
+Proof.
+  induction f as [|f IH]; intros cnt data first T rs H; cbn in H; [discriminate|]. cbn [scan_keep].
+  destruct (cnt <=? 0); [inversion H; reflexivity|].
+  destruct (scan_record data) as [[r rest]|]; [|discriminate].
+  destruct (parse_records f (cnt - 1) rest) as [rs'|] eqn:P; [|discriminate].
+  inversion H; subst. cbn [take_while]. unfold keep_p at 1.
+  destruct (T <? rec_ts first r) eqn:E.
+  - apply Z.ltb_lt in E. destruct (rec_ts first r <=? T) eqn:E2; [apply Z.leb_le in E2; lia|reflexivity].
+  - apply Z.ltb_ge in E. destruct (rec_ts first r <=? T) eqn:E2; [|apply Z.leb_gt in E2; lia].
+    now rewrite (IH _ _ first T _ P).
+Qed.
+
+Lemma parse_concat : forall rs, Forall good rs -> forall f rest, (length rs < f)%nat ->
+  parse_records f (zlen rs) (concat (map r_bytes rs) ++ rest) = Some rs.
+Proof.
+  induction rs as [|r rs IH]; intros G f rest Hf; destruct f as [|f]; try lia; cbn [parse_records].
+  - reflexivity.
+  - rewrite zlen_cons. pose proof (zlen_nonneg rs) as Hn.
+    destruct (1 + zlen rs <=? 0) eqn:E; [apply Z.leb_le in E; lia|].
+    inversion G as [|? ? [_ Gr] G']; subst. cbn [map concat]. rewrite <- app_assoc, Gr.
+    replace (1 + zlen rs - 1) with (zlen rs) by lia.
+    rewrite IH; [reflexivity|assumption|cbn in Hf; lia].
+Qed.
+
+Lemma concat_len_ge rs : Forall good rs -> (length rs <= length (concat (map r_bytes rs)))%nat.
+Proof.
+  induction 1 as [|r rs [Hne _] _ IH]; cbn; [lia|]. rewrite app_length.
+  destruct (r_bytes r); [contradiction|]. cbn. lia.
+Qed.
+
+Lemma take_while_forall {A} (P : A -> Prop) p l : Forall P l -> Forall P (take_while p l).
+Proof. induction 1; cbn; [constructor|]. destruct (p x); constructor; assumption. Qed.
+
+Lemma take_while_len {A} (p : A -> bool) l : zlen (take_while p l) <= zlen l.
+Proof.
+  induction l as [|x l IH]; cbn [take_while]; [lia|]. destruct (p x); rewrite ?zlen_cons; [lia|].
+  rewrite zlen_nil. pose proof (zlen_nonneg l). lia.
+Qed.
+
+Lemma take_while_full {A} (p : A -> bool) l : zlen (take_while p l) = zlen l -> take_while p l = l.
+Proof.
+  induction l as [|x l IH]; cbn [take_while]; [reflexivity|]. destruct (p x).
+  - rewrite !zlen_cons. intros H. f_equal. apply IH. lia.
+  - rewrite zlen_cons, zlen_nil. pose proof (zlen_nonneg l). lia.
+Qed.
+
+(* ---------------------------------------------------------------- the header *)
+Definition hdr_wf (h : hdr) : Prop :=
+  length (h_base h) = 8%nat /\ length (h_len h) = 4%nat /\ length (h_ple h) = 5%nat /\
+  length (h_crc h) = 4%nat /\ length (h_attr h) = 2%nat /\ length (h_lod h) = 4%nat /\
+  length (h_first h) = 8%nat /\ length (h_max h) = 8%nat /\ length (h_mid h) = 14%nat /\
+  length (h_cnt h) = 4%nat.
+
+Ltac explode l := repeat (destruct l as [|? l]; [discriminate|]); destruct l; [|discriminate].
+
+Lemma render_facts h data : hdr_wf h ->
+  split_header (render h data) = (h, data) /\
+  skipn 21 (render h data) = tail21 h data /\
+  zlen (render h data) = 61 + zlen data.
+Proof.
+  destruct h as [c0 c1 c2 c3 c4 c5 c6 c7 c8 c9]. unfold hdr_wf. cbn [h_base h_len h_ple h_crc h_attr h_lod h_first h_max h_mid h_cnt].
+  intros (H0 & H1 & H2 & H3 & H4 & H5 & H6 & H7 & H8 & H9).
+  explode c0. explode c1. explode c2. explode c3. explode c4. explode c5. explode c6. explode c7. explode c8. explode c9.
+  repeat split.
+  unfold render, tail21, zlen. cbn [h_base h_len h_ple h_crc h_attr h_lod h_first h_max h_mid h_cnt app length]. lia.
+Qed.
+
+Lemma split_wf b : 61 <= zlen b -> hdr_wf (fst (split_header b)).
+Proof.
+  unfold zlen. intros H. unfold split_header, hdr_wf. cbn [fst h_base h_len h_ple h_crc h_attr h_lod h_first h_max h_mid h_cnt].
+  repeat split; apply slice_length; lia.
+Qed.
+
+Lemma max_ts_le first T : forall rs m,
+  max_ts first m rs <= T <-> m <= T /\ forallb (keep_p first T) rs = true.
+Proof.
+  induction rs as [|r rs IH]; intros m; cbn [max_ts forallb].
+  - split; [intros H; split; [assumption|reflexivity]|tauto].
+  - rewrite IH. unfold keep_p at 2. destruct (m <? rec_ts first r) eqn:E.
+    + apply Z.ltb_lt in E. split.
+      * intros [H1 H2]. split; [lia|]. apply andb_true_iff. split; [apply Z.leb_le; lia|assumption].
+      * intros [H1 H2]. apply andb_true_iff in H2 as [H2 H3]. apply Z.leb_le in H2. tauto.
+    + apply Z.ltb_ge in E. split.
+      * intros [H1 H2]. split; [lia|]. apply andb_true_iff. split; [apply Z.leb_le; lia|assumption].
+      * intros [H1 H2]. apply andb_true_iff in H2 as [H2 H3]. tauto.
+Qed.
+
+Section Batch.
+Variable crc : bytes -> Z.
+
+(* the header fields the property names, for a batch holding the records rs *)
+Definition valid_fields (b' : bytes) (rs : list rec) : Prop :=
+  slice 8 4 b' = be_enc 4 (zlen b' - 12) /\
+  slice 17 4 b' = be_enc 4 (crc (skipn 21 b')) /\
+  slice 23 4 b' = be_enc 4 (r_od (last rs (mkRec [] 0 0))) /\
+  slice 57 4 b' = be_enc 4 (zlen rs).
+
+Theorem truncate_spec b T keep done :
+  hdr_consistent b -> truncate_batch crc b T = Ok (keep, done) ->
+  exists base first rs, batch_view b = Some (base, first, rs) /\
+    let kept := take_while (keep_p first T) rs in
+    match keep with
+    | None => kept = []
+    | Some b' => kept <> [] /\ batch_view b' = Some (base, first, kept) /\ (b' = b \/ valid_fields b' kept)
+    end /\
+    (done = false <-> kept = rs).
+Proof.
+  intros [Hlen Hc]. destruct (batch_view b) as [[[base first] rs]|] eqn:V; [|contradiction].
+  destruct Hc as (Hne & Hsz & Hfirst & Hmax & Hattr & Hlod).
+  intros H. exists base, first, rs. split; [reflexivity|]. cbn zeta.
+  pose proof V as V0.
+  unfold batch_view in V. assert ((zlen b <? 61) = false) as L61 by (apply Z.ltb_ge; lia). rewrite L61 in V.
+  cbn [split_header h_base h_first h_cnt] in V.
+  set (data := skipn 61 b) in *.
+  destruct (parse_records (S (length data)) (i32 (slice 57 4 b)) data) as [rs0|] eqn:P; [|discriminate].
+  injection V as Eb Ef Er. subst rs0.
+  pose proof (parse_good _ _ _ _ P) as [G Hcnt].
+  assert (0 < zlen rs) as Hpos.
+  { destruct rs; [contradiction|]. rewrite zlen_cons. pose proof (zlen_nonneg rs). lia. }
+  assert (i32 (slice 57 4 b) = zlen rs) as Hc32 by lia.
+  unfold truncate_batch in H. rewrite L61 in H. cbn [split_header] in H. fold data in H.
+  cbn [h_base h_len h_ple h_crc h_attr h_lod h_first h_max h_mid h_cnt] in H.
+  rewrite Ef in H. rewrite Hmax in H.
+  set (kept := take_while (keep_p first T) rs).
+  destruct (max_ts first first rs <=? T) eqn:Emax.
+  { (* whole batch before the cutoff *)
+    apply Z.leb_le in Emax. apply max_ts_le in Emax as [_ Hall].
+    unfold new_batch in H. assert ((b_lod b <? 0) = false) as Hl0 by (apply Z.ltb_ge; lia). rewrite Hl0 in H.
+    injection H as <- <-. assert (kept = rs) as Hk by (apply take_while_all; exact Hall).
+    rewrite Hk. repeat split; auto. }
+  apply Z.leb_gt in Emax.
+  destruct (T <? first) eqn:Efirst.
+  { apply Z.ltb_lt in Efirst. injection H as <- <-.
+    assert (kept = []) as Hk.
+    { subst kept. destruct rs as [|r0 rs']; [contradiction|]. cbn [take_while hd] in *. unfold keep_p.
+      rewrite Hfirst. destruct (first <=? T) eqn:E; [apply Z.leb_le in E; lia|reflexivity]. }
+    rewrite Hk. split; [reflexivity|]. split; [discriminate|]. intros E. symmetry in E. contradiction. }
+  apply Z.ltb_ge in Efirst.
+  rewrite Hattr in H. cbn [Z.eqb negb] in H.
+  rewrite (scan_keep_parse _ _ _ first T _ P) in H. fold kept in H.
+  destruct (zlen kept =? 0) eqn:E0.
+  { apply Z.eqb_eq in E0. injection H as <- <-.
+    assert (kept = []) as Hk by (destruct kept; [reflexivity|rewrite zlen_cons in E0; pose proof (zlen_nonneg kept); lia]).
+    rewrite Hk. split; [reflexivity|]. split; [discriminate|]. intros E. symmetry in E. contradiction. }
+  apply Z.eqb_neq in E0.
+  rewrite Hc32 in H.
+  destruct (zlen kept =? zlen rs) eqn:Eall.
+  { (* impossible under the guard: every record kept although maxTimestamp > T *)
+    apply Z.eqb_eq in Eall. apply take_while_full in Eall. exfalso.
+    assert (forallb (keep_p first T) rs = true) as Hall.
+    { fold kept in Eall. clear - Eall. subst kept. induction rs as [|r rs IH]; [reflexivity|].
+      cbn [take_while] in Eall. cbn [forallb]. destruct (keep_p first T r); [|discriminate].
+      injection Eall as Eall. now rewrite IH. }
+    assert (max_ts first first rs <= T) by (apply max_ts_le; split; [lia|assumption]). lia. }
+  apply Z.eqb_neq in Eall.
+  (* the rewritten batch *)
+  set (data' := concat (map r_bytes kept)) in *.
+  match type of H with new_batch (render ?hh _) _ = _ => set (h2 := hh) in * end.
+  pose proof (split_wf b Hlen) as Wb. unfold split_header, hdr_wf in Wb.
+  cbn [fst h_base h_len h_ple h_crc h_attr h_lod h_first h_max h_mid h_cnt] in Wb.
+  destruct Wb as (W0 & W1 & W2 & W3 & W4 & W5 & W6 & W7 & W8 & W9).
+  assert (hdr_wf h2) as W.
+  { unfold hdr_wf, h2. cbn [h_base h_len h_ple h_crc h_attr h_lod h_first h_max h_mid h_cnt].
+    rewrite !be_enc_length. repeat split; assumption. }
+  destruct (render_facts h2 data' W) as (R1 & R2 & R3).
+  unfold new_batch in H. destruct (b_lod (render h2 data') <? 0); [discriminate|].
+  injection H as <- <-.
+  assert (Forall good kept) as Gk by (apply take_while_forall; exact G).
+  pose proof (take_while_len (keep_p first T) rs) as Hle. fold kept in Hle.
+  pose proof (zlen_nonneg kept) as Hk0.
+  split; [|split; [discriminate|intros E; rewrite E in Eall; lia]].
+  split; [intros E; rewrite E in E0; cbn in E0; lia|].
+  split.
+  - unfold batch_view. assert ((zlen (render h2 data') <? 61) = false) as -> by (apply Z.ltb_ge; pose proof (zlen_nonneg data'); lia).
+    rewrite R1. unfold h2 at 1. cbn [h_cnt]. rewrite i32_enc by lia.
+    pose proof (parse_concat kept Gk (S (length data')) []) as PC. rewrite app_nil_r in PC. fold data' in PC.
+    rewrite PC by (pose proof (concat_len_ge kept Gk); fold data' in H; lia).
+    unfold h2. cbn [h_base h_first]. now rewrite Eb, Ef.
+  - right. unfold valid_fields.
+    assert (fst (split_header (render h2 data')) = h2) as F by (now rewrite R1).
+    unfold split_header in F. cbn [fst] in F.
+    pose proof (f_equal h_len F) as F1. pose proof (f_equal h_crc F) as F3.
+    pose proof (f_equal h_lod F) as F5. pose proof (f_equal h_cnt F) as F9.
+    cbn [h_len h_crc h_lod h_cnt] in F1, F3, F5, F9.
+    repeat split.
+    + rewrite F1, R3. unfold h2. cbn [h_len]. reflexivity.
+    + rewrite F3, R2. unfold h2. cbn [h_crc]. reflexivity.
+    + rewrite F5. reflexivity.
+    + rewrite F9. reflexivity.
+Qed.
+
+End Batch.
+
+(* ---------------------------------------------------------------- segment body *)
+Lemma slice_app_l (a r : bytes) off n : (off + n <= length a)%nat -> slice off n (a ++ r) = slice off n a.
+Proof.
+  intros H. unfold slice. rewrite skipn_app. rewrite firstn_app.
+  replace (n - length (skipn off a))%nat with 0%nat by (rewrite skipn_length; lia).
+  cbn [firstn]. apply app_nil_r.
+Qed.
+
+Lemma take_while_all_inv {A} (p : A -> bool) l : take_while p l = l -> forallb p l = true.
+Proof.
+  induction l as [|x l IH]; cbn; [reflexivity|]. destruct (p x); [|discriminate].
+  intros H. injection H as H. now apply IH.
+Qed.
+
+Definition recs_of (b : bytes) : list (Z * Z * bytes) :=
+  match batch_records b with Some l => l | None => [] end.
+
+Section Segment.
+Variable crc : bytes -> Z.
+
+(* a source frame: batchLength = len - 12 and the guard on the header *)
+Definition frame_ok (b : bytes) : Prop := be_u (slice 8 4 b) = zlen b - 12 /\ hdr_consistent b.
+
+(* an output batch is a source batch, or a rewritten one with consistent fields *)
+Definition out_ok (bs : list bytes) (b' : bytes) : Prop :=
+  In b' bs \/ exists base first rs', batch_view b' = Some (base, first, rs') /\ valid_fields crc b' rs'.
+
+Lemma recs_view b base first rs : batch_view b = Some (base, first, rs) -> recs_of b = map (rview base first) rs.
+Proof. intros V. unfold recs_of, batch_records. now rewrite V. Qed.
+
+Lemma ts_ok_view T base first rs :
+  take_while (ts_ok T) (map (rview base first) rs) = map (rview base first) (take_while (keep_p first T) rs).
+Proof. rewrite take_while_map. reflexivity. Qed.
+
+Theorem collect_spec T : forall bs fuel out,
+  Forall frame_ok bs -> (length bs < fuel)%nat ->
+  collect crc fuel (concat bs) T = Ok out ->
+  concat (map recs_of out) = take_while (ts_ok T) (concat (map recs_of bs)) /\ Forall (out_ok bs) out.
+Proof.
+  induction bs as [|b bs IH]; intros fuel out HF Hfuel H; destruct fuel as [|fuel]; try lia; cbn [collect concat] in H.
+  - cbn in H. injection H as <-. split; [reflexivity|constructor].
+  - inversion HF as [|? ? [Hbl Hc] HF']; subst.
+    pose proof Hc as [Hlen _]. unfold zlen in Hlen.
+    assert ((zlen (b ++ concat bs) <? 12) = false) as E1 by (apply Z.ltb_ge; rewrite zlen_app; pose proof (zlen_nonneg (concat bs)); unfold zlen at 1; lia).
+    rewrite E1 in H. rewrite (slice_app_l b (concat bs) 8 4) in H by lia. rewrite Hbl in H.
+    assert ((zlen b - 12 <=? 0) = false) as E2 by (apply Z.leb_gt; unfold zlen; lia). rewrite E2 in H.
+    replace (12 + (zlen b - 12)) with (zlen b) in H by lia.
+    assert ((zlen (b ++ concat bs) <? zlen b) = false) as E3 by (apply Z.ltb_ge; rewrite zlen_app; pose proof (zlen_nonneg (concat bs)); lia).
+    rewrite E3 in H. unfold zlen in H at 1 2. rewrite Nat2Z.id in H.
+    rewrite (firstn_app_exact b (concat bs) _ eq_refl), (skipn_app_exact b (concat bs) _ eq_refl) in H.
+    destruct (truncate_batch crc b T) as [[keep done]|] eqn:Tr; [|discriminate].
+    destruct (truncate_spec crc b T keep done Hc Tr) as (base & first & rs & V & Hkeep & Hdone).
+    cbn zeta in Hkeep, Hdone. set (kept := take_while (keep_p first T) rs) in *.
+    cbn [map concat]. rewrite (recs_view _ _ _ _ V). rewrite take_while_app, ts_ok_view. fold kept.
+    assert (forallb (ts_ok T) (map (rview base first) rs) = true <-> kept = rs) as Hall.
+    { assert (forallb (ts_ok T) (map (rview base first) rs) = forallb (keep_p first T) rs) as ->.
+      { clear. induction rs as [|r rs IHr]; cbn [map forallb]; [reflexivity|]. now rewrite IHr. }
+      split; [apply take_while_all|apply take_while_all_inv]. }
+    assert (out_pre : forall pre, match keep with Some b' => [b'] | None => [] end = pre ->
+              concat (map recs_of pre) = map (rview base first) kept /\ Forall (out_ok (b :: bs)) pre).
+    { intros pre <-. destruct keep as [b'|].
+      - destruct Hkeep as (Hk1 & Vb' & Hval). cbn [map concat]. rewrite (recs_view _ _ _ _ Vb'), app_nil_r.
+        split; [reflexivity|]. constructor; [|constructor].
+        destruct Hval as [->|Hval]; [left; now left|right; eauto].
+      - rewrite Hkeep. split; [reflexivity|constructor]. }
+    destruct done.
+    + injection H as <-. destruct (out_pre _ eq_refl) as [O1 O2]. split; [|exact O2].
+      rewrite O1. destruct (forallb (ts_ok T) (map (rview base first) rs)) eqn:Ef; [|reflexivity].
+      pose proof (proj1 Hall eq_refl) as Ek. destruct Hdone as [_ Hd]. specialize (Hd Ek). discriminate.
+    + destruct (collect crc fuel (concat bs) T) as [rest|] eqn:Co; [|discriminate]. injection H as <-.
+      destruct (IH fuel rest HF' ltac:(cbn in Hfuel; lia) Co) as [I1 I2].
+      destruct (out_pre _ eq_refl) as [O1 O2].
+      destruct Hdone as [Hd _]. specialize (Hd eq_refl).
+      rewrite (proj2 Hall Hd). rewrite map_app, concat_app, O1, I1, Hd. split; [reflexivity|].
+      apply Forall_app. split; [exact O2|].
+      eapply Forall_impl; [|exact I2]. intros x [Hin|Hx]; [left; now right|right; exact Hx].
+Qed.
+
+End Segment.
+
+(* ---------------------------------------------------------------- the restore plan *)
+Definition seg_body (seg : bytes) : bytes := firstn (length seg - 48) (skipn 32 seg).
+
+(* a well-formed source segment: 32-byte header with the magic, the frames, 16-byte footer *)
+Definition seg_wf (seg : bytes) (bs : list bytes) : Prop :=
+  exists hd ft, seg = hd ++ concat bs ++ ft /\ length hd = 32%nat /\ length ft = 16%nat /\
+                firstn 4 hd = magic_kafs /\ Forall frame_ok bs.
+
+Lemma seg_body_eq hd body ft : length hd = 32%nat -> length ft = 16%nat -> seg_body (hd ++ body ++ ft) = body.
+Proof.
+  intros H1 H2. unfold seg_body. rewrite (skipn_app_exact hd _ 32 H1).
+  rewrite !app_length, H1, H2. replace (32 + (length body + 16) - 48)%nat with (length body) by lia.
+  now apply firstn_app_exact.
+Qed.
+
+Lemma frames_len bs : Forall frame_ok bs -> (length bs <= length (concat bs))%nat.
+Proof.
+  induction 1 as [|b bs [_ [Hl _]] _ IH]; cbn; [lia|]. rewrite app_length. unfold zlen in Hl. lia.
+Qed.
+
+Section Plan.
+Variable crc : bytes -> Z.
+
+Theorem plan_spec seg bs ix T created : seg_wf seg bs ->
+  match build_plan crc seg ix T created with
+  | Err => True
+  | Ok None => take_while (ts_ok T) (concat (map recs_of bs)) = []
+  | Ok (Some a) =>
+      exists out, out <> [] /\ seg_body (a_seg a) = concat out /\
+        concat (map recs_of out) = take_while (ts_ok T) (concat (map recs_of bs)) /\
+        Forall (out_ok crc bs) out /\ a_base a = b_base (hd [] out)
+  end.
+Proof.
+  intros (hd0 & ft & -> & Hh & Hf & Hm & HF). unfold build_plan.
+  destruct (index_interval ix) as [iv|]; [|exact I].
+  unfold collect_segment.
+  assert ((zlen (hd0 ++ concat bs ++ ft) <? 48) = false) as ->.
+  { apply Z.ltb_ge. unfold zlen. rewrite !app_length, Hh, Hf. lia. }
+  assert (firstn 4 (hd0 ++ concat bs ++ ft) = magic_kafs) as ->.
+  { rewrite firstn_app, Hh. cbn [Nat.sub firstn]. now rewrite app_nil_r. }
+  cbn [bytes_eqb magic_kafs Z.eqb Pos.eqb andb negb].
+  fold (seg_body (hd0 ++ concat bs ++ ft)). rewrite (seg_body_eq _ _ _ Hh Hf).
+  destruct (collect crc (S (length (concat bs))) (concat bs) T) as [out|] eqn:Co; [|exact I].
+  pose proof (frames_len bs HF) as Hfl.
+  destruct (collect_spec crc T bs (S (length (concat bs))) out HF ltac:(lia) Co) as [C1 C2].
+  destruct out as [|o out'].
+  - cbn in C1. now rewrite <- C1.
+  - exists (o :: out'). split; [discriminate|]. split; [|split; [exact C1|split; [exact C2|reflexivity]]].
+    unfold build_segment. cbn [a_seg]. apply seg_body_eq.
+    + rewrite !app_length, !be_enc_length. reflexivity.
+    + rewrite !app_length, !be_enc_length. reflexivity.
+Qed.
+
+End Plan.
